@@ -13,7 +13,8 @@ import (
 // C05 — the MPD only moves forward, and publishTime identifies its content (engine T).
 
 type c05World struct {
-	VodRoot string `json:"vodroot"`
+	Gen     *GenWorld `json:"gen,omitempty"` // generated VoD world instead of the bundled assets
+	VodRoot string    `json:"vodroot"`
 	Asset   string `json:"asset"`
 	MPD     string `json:"mpd"`
 	Cfg     URLCfg `json:"cfg"`
@@ -33,8 +34,8 @@ func (C05) ID() string     { return "C05" }
 func (C05) Engine() string { return "tlsim" }
 
 func (C05) Gen(rng *core.Rng, tier string, idx int) *core.Scenario {
-	ar := core.Pick(rng, bundledMPDs)
-	a := refAssets(hx.BundledAssets)[ar.Asset]
+	label, gen, assetName, mpdName, a := pickMPDWorld(rng)
+	ar := assetRef{Asset: assetName, MPD: mpdName}
 	base := int64(1_600_000_000_000) + rng.Int63n(300_000_000_000)
 	if rng.Chance(0.15) {
 		base = rng.Int63n(3_000_000_000_000)
@@ -73,7 +74,7 @@ func (C05) Gen(rng *core.Rng, tier string, idx int) *core.Scenario {
 		}
 		cfg.StopS = p64(st)
 	}
-	w := c05World{VodRoot: "bundled", Asset: ar.Asset, MPD: ar.MPD, Cfg: cfg}
+	w := c05World{VodRoot: label, Gen: gen, Asset: ar.Asset, MPD: ar.MPD, Cfg: cfg}
 	sc := core.NewScenario("C05", "tlsim", 0, tier, w)
 	nOps := rng.Range(5, 12)
 	if tier == "thorough" {
@@ -158,6 +159,9 @@ func (C05) Run(t *testing.T, sc *core.Scenario, res *core.Result) {
 		panic(err)
 	}
 	root := vodRootOf(w.VodRoot)
+	if w.Gen != nil {
+		root = genRoot(*w.Gen)
+	}
 	a := refAssets(root)[w.Asset]
 	if a == nil {
 		panic("harness: unknown asset")
